@@ -27,6 +27,13 @@ import (
 // ids >= concBase are many-goroutine cases
 const concBase = 1000000
 
+// ids >= onceBase: two goroutines exit the same entry; ids >= freshBase: racing first entries of
+// fresh resources
+const (
+	onceBase  = 2000000
+	freshBase = 3000000
+)
+
 func main() {
 	a := cli.Parse()
 	// one statistic geometry for both nodes' read views: 20 x 500 ms = 10 s, so that the sums
@@ -36,14 +43,18 @@ func main() {
 	clk.Install()
 	root := rng.New(a.Seed)
 	rep := emit.NewReport("C01", a.Seed, a.Tier)
-	rep.Rule = "sequential: 1-3 chains per case - the real default chain (3 of 5 cases; a hotspot rule on parameter 0 of every resource, so that an unhashable argument makes the built-in rule evaluation panic) and custom accounting chains (node-prepare slot first, 0-2 further prepare slots that may panic, 0-5 rule-check slots that pass/return nil/wait/block/panic, 0-3 recording statistic slots, the real stat.DefaultSlot), 1 in 10 custom chains of the known-finding class (a prepare slot may panic before the node is prepared); 8-41 operations: Entry on 1-3 resources (inbound/outbound, batch in {0,1,2,3,7,2^32-1}, 0-3 args incl. unhashable ones), nested and out-of-order Exit with/without error, repeated/late/void Exit, TraceError and TraceCallee on live and exited entries, exit handlers (ok/err), clock ticks, snapshots (node sums, gauge, err/args/address of every live entry's context); the pool choice is observed by pointer identity. concurrent: 4-8 goroutines x 40-120 transactions over the default chain and a custom chain, quiescent totals only. Non-trivial = the case has an admitted, a blocked and a panic-passed entry and a late call on an exited entry; distinct by full input (context reuse depends on sync.Pool and is only counted in the distribution)."
+	rep.Rule = "sequential: 1-3 chains per case - the real default chain (3 of 5 cases; a hotspot rule on parameter 0 of every resource, so that an unhashable argument makes the built-in rule evaluation panic) and custom accounting chains (node-prepare slot first, 0-2 further prepare slots that may panic, 0-5 rule-check slots that pass/return nil/wait/block/panic, 0-3 recording statistic slots, the real stat.DefaultSlot), 1 in 10 custom chains of the known-finding class (a prepare slot may panic before the node is prepared); 8-41 operations: Entry on 1-3 resources (inbound/outbound, batch in {0,1,2,3,7,2^32-1}, 0-3 args incl. unhashable ones), nested and out-of-order Exit with/without error, repeated/late/void Exit, TraceError and TraceCallee on live and exited entries, exit handlers (ok/err), clock ticks, snapshots (node sums, gauge, err/args/address of every live entry's context); the pool choice is observed by pointer identity. concurrent: 4-8 goroutines x 40-120 transactions over the default chain and a custom chain, quiescent totals only; 2-4 goroutines exiting the same entry while the first is parked inside OnCompleted; rounds of 8 goroutines released at once on the first Entry of a fresh resource (no node yet). Non-trivial = the case has an admitted, a blocked and a panic-passed entry and a late call on an exited entry; distinct by full input (context reuse depends on sync.Pool and is only counted in the distribution)."
 	nCorr := a.Pick(a.N, 150, 2500)
 	nMon := a.Pick(a.Mon, 3000, 50000)
 	nConc := a.Pick(0, 12, 300)
+	nOnce := a.Pick(0, 10, 200)
+	nFresh := a.Pick(0, 2000, 20000) // rounds of 8 goroutines
 	if a.Search {
 		nCorr = 0
 		nMon *= 5
 		nConc *= 3
+		nOnce *= 3
+		nFresh *= 3
 	}
 	var sh *emit.Shards
 	if a.Only < 0 && !a.Search {
@@ -127,8 +138,33 @@ func main() {
 			fmt.Println(string(out))
 		}
 	}
+	report := func(id int, in interface{}, fails []chainh.Failure, st map[string]int) {
+		rep.Evaluations++
+		for _, f := range fails {
+			rep.Fail(id, f.Clause, f.Signature, f.Detail, in)
+		}
+		for k, v := range st {
+			rep.Count(k, v)
+		}
+		if a.Only >= 0 {
+			out, _ := json.MarshalIndent(map[string]interface{}{"input": in, "stats": st}, "", " ")
+			fmt.Println(string(out))
+		}
+	}
+	runOnceOne := func(id int) {
+		in, fails, st := runOnceRace(id, root.Fork(uint64(id)), clk)
+		report(id, in, fails, st)
+	}
+	runFreshOne := func(id, rounds int) {
+		in, fails, st := runFreshNodeRace(id, rounds, clk)
+		report(id, in, fails, st)
+	}
 	if a.Only >= 0 {
-		if a.Only >= concBase {
+		if a.Only >= freshBase {
+			runFreshOne(a.Only, 3*nFresh)
+		} else if a.Only >= onceBase {
+			runOnceOne(a.Only)
+		} else if a.Only >= concBase {
 			runConcOne(a.Only)
 		} else {
 			runOne(a.Only, false)
@@ -144,6 +180,10 @@ func main() {
 	for i := 0; i < nConc; i++ {
 		runConcOne(concBase + i)
 	}
+	for i := 0; i < nOnce; i++ {
+		runOnceOne(onceBase + i)
+	}
+	runFreshOne(freshBase, nFresh)
 	rep.DistinctNontrivial = dist.N()
 	rep.Consts["stat.StatSlotOrder"] = stat.StatSlotOrder
 	rep.Consts["stat.PrepareSlotOrder"] = stat.PrepareSlotOrder
